@@ -14,6 +14,7 @@ import (
 	"fmt"
 	"net"
 	"os"
+	"path/filepath"
 	"sort"
 	"strings"
 	"testing"
@@ -35,6 +36,7 @@ import (
 type c01rScenario struct {
 	LMTP     bool                `json:"lmtp"`
 	Remote   bool                `json:"remote_mx,omitempty"` // target.remote (MX lookup, connection cache, per-recipient statuses) instead of target.smtp/lmtp
+	TLS      bool                `json:"starttls,omitempty"`  // target.smtp talks to the next hop over STARTTLS (its default)
 	HopUTF8  bool                `json:"next_hop_smtputf8"`
 	MaxTries int                 `json:"max_tries"`
 	Null     bool                `json:"null_sender"`
@@ -49,6 +51,9 @@ func c01rGen(t *rapid.T) c01rScenario {
 		Null: rapid.IntRange(0, 7).Draw(t, "null") == 0}
 	if !sc.LMTP && rapid.IntRange(0, 2).Draw(t, "remote") == 0 {
 		sc.Remote = true
+	}
+	if !sc.LMTP && !sc.Remote {
+		sc.TLS = rapid.Bool().Draw(t, "starttls")
 	}
 	nr := len(c01rRcpts) - 1
 	if sc.Remote {
@@ -65,6 +70,10 @@ func c01rGen(t *rapid.T) c01rScenario {
 		case 2:
 			if sc.LMTP {
 				p["dropafter"] = fmt.Sprint(rapid.IntRange(0, len(sc.Rcpts)-1).Draw(t, "dropafter"))
+			}
+		case 3:
+			if !sc.LMTP {
+				p["afterdata"] = "drop" // the message is accepted, then the server is gone: QUIT cannot be said any more
 			}
 		}
 		for _, r := range sc.Rcpts {
@@ -94,7 +103,21 @@ func c01rGen(t *rapid.T) c01rScenario {
 
 func c01rRun(sc c01rScenario) (vs []ev.V) {
 	r := ev.Get("C01")
-	hop, err := verifx.StartNextHop(verifx.HopConfig{Name: "downstream.test", UTF8: sc.HopUTF8, LMTP: sc.LMTP})
+	hopCfg := verifx.HopConfig{Name: "downstream.test", UTF8: sc.HopUTF8, LMTP: sc.LMTP}
+	var caPEM []byte
+	if sc.TLS {
+		var ips []string
+		for a := 1; a < 40; a++ {
+			ips = append(ips, fmt.Sprintf("127.0.%d.2", a))
+		}
+		tcfg, ca, err := verifx.SelfSignedFor(append(ips, "127.0.0.1"), []string{"downstream.test"})
+		if err != nil {
+			r.HarnessError("certificate: %v", err)
+			return nil
+		}
+		hopCfg.TLS, caPEM = tcfg, ca
+	}
+	hop, err := verifx.StartNextHop(hopCfg)
 	if err != nil {
 		r.HarnessError("next hop: %v", err)
 		return nil
@@ -118,7 +141,17 @@ func c01rRun(sc c01rScenario) (vs []ev.V) {
 		}
 		mod, _ := smtptarget.NewDownstream(name, "verif", nil, []string{"tcp://" + hop.Addr})
 		d := mod.(*smtptarget.Downstream)
-		if err := d.Init(config.NewMap(map[string]interface{}{"hostname": "mx.maddy.test"}, config.Node{Children: []config.Node{{Name: "starttls", Args: []string{"no"}}}})); err != nil {
+		nodes := []config.Node{{Name: "starttls", Args: []string{"no"}}}
+		if sc.TLS {
+			caFile := filepath.Join(os.TempDir(), fmt.Sprintf("c01real-ca-%d-%d.pem", os.Getpid(), time.Now().UnixNano()))
+			if err := os.WriteFile(caFile, caPEM, 0o600); err != nil {
+				r.HarnessError("%v", err)
+				return nil
+			}
+			defer os.Remove(caFile)
+			nodes = []config.Node{{Name: "starttls", Args: []string{"yes"}}, {Name: "tls_client", Children: []config.Node{{Name: "root_ca", Args: []string{caFile}}}}}
+		}
+		if err := d.Init(config.NewMap(map[string]interface{}{"hostname": "mx.maddy.test"}, config.Node{Children: nodes})); err != nil {
 			r.HarnessError("downstream init: %v", err)
 			return nil
 		}
@@ -221,6 +254,9 @@ func c01rRun(sc c01rScenario) (vs []ev.V) {
 	}
 	// (target.remote opens a transaction per recipient domain and again after a refused MAIL, so one attempt can
 	// be several transactions there; the per-recipient bound below still applies)
+	if os.Getenv("VERIF_DEBUG") != "" {
+		fmt.Println("C01REAL-DEBUG", describe(), "\nlogs:", h.Logs)
+	}
 	if len(txs) > sc.MaxTries && !sc.Remote {
 		vs = append(vs, ev.Vf("real:more-attempts-than-max-tries", "the next hop saw %d transactions, max_tries is %d%s", len(txs), sc.MaxTries, describe()))
 	}
